@@ -29,7 +29,7 @@ import sys
 import zipfile
 from collections import defaultdict
 from pathlib import Path
-from typing import Any, Dict, List, Optional, Set, Union
+from typing import AbstractSet, Any, Dict, List, Optional, Set, Union
 
 import bson
 from docopt import docopt
@@ -55,6 +55,10 @@ class Backend(ProjectBackend):
         self.total_diagnostics = 0
         self.total_pages = 0
         self.assets_written: Set[str] = set()
+        self.silence_diagnostics: AbstractSet[str] = frozenset()
+
+    def on_config(self, config: ProjectConfig, branch: str) -> None:
+        self.silence_diagnostics = config.silence_diagnostics
 
     def on_progress(self, progress: int, total: int, message: str) -> None:
         pass
@@ -122,8 +126,13 @@ class Backend(ProjectBackend):
 
         for static_asset in uploadable_assets:
             checksum = static_asset.get_checksum()
-            if static_asset.diagnostics:
-                self.on_diagnostics(page_id, static_asset.diagnostics)
+            asset_diagnostics = [
+                diagnostic
+                for diagnostic in static_asset.diagnostics
+                if diagnostic.__class__.__name__ not in self.silence_diagnostics
+            ]
+            if asset_diagnostics:
+                self.on_diagnostics(page_id, asset_diagnostics)
             if checksum in self.assets_written:
                 continue
 
@@ -168,6 +177,7 @@ class ZipBackend(Backend):
         self.assets_written: Set[str] = set()
 
     def on_config(self, config: ProjectConfig, branch: str) -> None:
+        super().on_config(config, branch)
         self.metadata["project"] = config.name
         self.metadata["branch"] = branch
 
